@@ -785,7 +785,66 @@ def replay_solve(r):  # noqa: F811
     return _replay_solve_basic(r)
 
 
-HANDLERS = {"prop": replay_prop, "heur": replay_heur, "split": replay_split, "reducer": replay_reducer, "stack": replay_stack, "solve": replay_solve, "varheur": replay_varheur, "lemma": replay_lemma}
+def replay_shave(r):
+    import nucs.heuristics.heuristics as H
+    import nucs.propagators.propagators as P
+    import nucs.solvers.backtrack_solver as BS
+    from nucs.solvers.bound_consistency_algorithm import bound_consistency_algorithm
+    from nucs.solvers.shaving_consistency_algorithm import shaving_consistency_algorithm, shave_bound
+
+    kind = r["kind"]
+    if r.get("site") == "shave_bound":
+        return False, "shave_bound lemma with a stubbed propagation pass: no public-API scenario derived automatically"
+    addrs = BS.get_function_addresses()[0]
+
+    def mk():
+        pb, kw, BacktrackSolver = build_real(dict(r, cfg={}))
+        s = BacktrackSolver(pb, **kw)
+        return s
+
+    def args(s):
+        pb = s.problem
+        return (s.statistics, pb.algorithms, pb.var_bounds, pb.param_bounds, pb.dom_indices_arr, pb.dom_offsets_arr, pb.props_dom_indices, pb.props_dom_offsets, pb.props_parameters, pb.triggers, s.shr_domains_stack, s.not_entailed_propagators_stack, s.dom_update_stack, s.stacks_top, s.triggered_propagators, addrs, s.decision_domains)
+
+    s1, s2 = mk(), mk()
+    if r.get("state") == "after_choice":
+        for s in (s1, s2):
+            if bound_consistency_algorithm(*args(s)) != 1:
+                return False, "root not unbound"
+            d = H.VAR_HEURISTIC_FCTS[H.VAR_HEURISTIC_FIRST_NOT_INSTANTIATED](s.var_heuristic_params, s.decision_domains, s.shr_domains_stack, s.stacks_top)
+            ev = H.DOM_HEURISTIC_FCTS[H.DOM_HEURISTIC_MIN_VALUE](s.dom_heuristic_params, s.shr_domains_stack, s.not_entailed_propagators_stack, s.dom_update_stack, s.stacks_top, d)
+            P.add_propagators(s.triggered_propagators, s.not_entailed_propagators_stack[s.stacks_top[0]], s.problem.triggers, d, ev)
+    top = int(s1.stacks_top[0])
+    entry = s1.shr_domains_stack[top].copy().tolist()
+    below = s1.shr_domains_stack[:top].copy()
+    st_sh = int(shaving_consistency_algorithm(*args(s1)))
+    st_bc = int(bound_consistency_algorithm(*args(s2)))
+    fails = set()
+    if int(s1.stacks_top[0]) != top:
+        fails.add("stack-height-changed")
+    if (s1.shr_domains_stack[:top] != below).any():
+        fails.add("lower-level-modified")
+    sols = semantic_solutions(dict(r, doms=entry))
+    dom_of = lambda vals: [vals[r["dom_indices"].index(d)] - r["offsets"][r["dom_indices"].index(d)] for d in range(len(entry))]  # noqa: E731
+    sh = s1.shr_domains_stack[top].tolist()
+    bc = s2.shr_domains_stack[top].tolist()
+    if st_sh == 0:
+        if sols:
+            fails.add("fails-although-a-solution-exists")
+    else:
+        if st_bc == 0:
+            fails.add("bc-fails-but-shaving-does-not")
+        else:
+            if any(a < c or b > d for (a, b), (c, d) in zip(sh, bc)):
+                fails.add("not-contained-in-bc-result")
+        for v in sols:
+            x = dom_of(v)
+            if any(not (lo <= xi <= hi) for xi, (lo, hi) in zip(x, sh)):
+                fails.add("solution-shaved-away")
+    return kind in fails, f"failures={sorted(fails)} shaving=({st_sh},{sh}) bc=({st_bc},{bc}) entry={entry}"
+
+
+HANDLERS = {"shave": replay_shave, "prop": replay_prop, "heur": replay_heur, "split": replay_split, "reducer": replay_reducer, "stack": replay_stack, "solve": replay_solve, "varheur": replay_varheur, "lemma": replay_lemma}
 
 
 def validate_prop(w):
